@@ -366,6 +366,35 @@ def p1_input_panics(F, r):
         raise AnchorError(f"only {n_direct} direct and {n_callee} callee rows found")
 
 
+# rules with a documented / obviously intended precondition that lets them accept early (one row per rule, with the reason)
+EARLY_OK = {
+    "check_e1607_jobs_with_value_but_no_objective": "no objectives property at all => default objectives include the value objective (documented in E1607's text: `remove objectives property`)",
+}
+
+
+def e1_single_accept_exit(F, r):
+    """a validation rule accepts at exactly one place, after all its error conditions were looked at (33 of 38 rules on the pinned tree; 4 only delegate; 1 reasoned
+    exception): an additional early `return Ok(())` is a condition under which the documented rule is silently skipped"""
+    n = 0
+    for fid, fn in sorted(F.fns.items()):
+        if fn["kind"] == "Closure" or "::promoted[" in fid or not fn["module"].startswith("vrp_pragmatic::validation") or not fid.split("::")[-1].startswith("check_e"):
+            continue
+        oks = [(bi, st.get("ln")) for bi, si, st in mir.stmts(fn) if st["r"]["k"] == "agg" and st["r"].get("n", "").endswith("Result#Ok") and not st["d"]["p"] and st["d"]["l"] == 0]
+        errs = [bi for bi, si, st in mir.stmts(fn) if st["r"]["k"] == "agg" and st["r"].get("n", "").endswith("Result#Err")]
+        n += 1
+        name = fid.split("::")[-1]
+        if len(oks) <= 1:
+            r.ok(name, "single accepting exit")
+        elif name in EARLY_OK and len(oks) == 2:
+            r.ok(name, "table: " + EARLY_OK[name])
+        else:
+            early = sorted(oks, key=lambda x: (x[1] or 0))[0]
+            r.fail(name, f"the rule has {len(oks)} accepting exits: an early `Ok(())` skips the rest of the rule (its {len(errs)} error condition(s)) under a condition the documented rule does "
+                   "not mention — inputs the rule should reject pass validation", F.loc(fid, early[1]))
+    if n < 35:
+        raise AnchorError(f"only {n} validation rule functions found")
+
+
 def r1_relation_shift(F, r):
     """relation rules: whenever a relation rule looks at the shifts of the relation's vehicle it selects the shift by the relation's own shift index"""
     n = 0
@@ -407,5 +436,6 @@ def run(ctx):
     ctx.run("C10-V2", "every validation rule function is reachable from ValidationContext::validate; module validators aggregate all results", v2_rules_wired, floor=38)
     ctx.run("C10-V3", "code literal == rule name; codes in code == codes in docs", v3_code_tables, floor=30)
     ctx.run("C10-P1", "input-derived panics (narrow): direct unwrap/expect/index on document values are confirmed guarded; fields fed to panicking parsers are read by validation", p1_input_panics, floor=10)
+    ctx.run("C10-E1", "every validation rule has a single accepting exit (reasoned exceptions)", e1_single_accept_exit, floor=35)
     ctx.run("C10-R1", "relation rules select the vehicle shift by the relation's shift index", r1_relation_shift, floor=2)
     ctx.run("C10-V4", "no Result produced in validation is dropped", v4_no_dropped_results, floor=1)
